@@ -111,6 +111,10 @@ func xmlHashes(dir string) string {
 	return strings.Join(parts, ",")
 }
 
+// emit mode (GENRUN_MODE=emit): generate with the file target only and build
+// <root>/erun, a runner that links every unit whose output compiles.
+var emitMode = os.Getenv("GENRUN_MODE") == "emit"
+
 func main() {
 	root, repo := os.Args[1], os.Args[2]
 	base := filepath.Join(root, "src", "gen")
@@ -172,6 +176,9 @@ func main() {
 					zz.WriteString("var _ inspector.Inspector = " + string(m[1]) + "{}\n")
 				}
 			}
+			if emitMode {
+				return
+			}
 			// second run and the other targets, for C13
 			det, tgt := "ok", "ok"
 			if err := compile(fconf(u.pkg + "_ins2")); err != nil || !sameUpToNumbering(out, readDir(filepath.Join(base, u.pkg+"_ins2"))) {
@@ -219,6 +226,10 @@ func main() {
 	must(os.WriteFile(filepath.Join(base, "go.mod"), []byte(gomod), 0644))
 	sum, _ := os.ReadFile(filepath.Join(repo, "go.sum"))
 	must(os.WriteFile(filepath.Join(base, "go.sum"), sum, 0644))
+	if emitMode {
+		gomod += "\nrequire verif/harness v0.0.0\n\nreplace verif/harness => " + os.Getenv("GENRUN_HARNESS") + "\n"
+		must(os.WriteFile(filepath.Join(base, "go.mod"), []byte(gomod), 0644))
+	}
 	cmd := exec.Command("go", "build", "./...")
 	cmd.Dir = base
 	cmd.Env = append(os.Environ(), "GO111MODULE=on", "GOMODCACHE="+os.Getenv("GENRUN_MODCACHE"), "GOPATH="+os.Getenv("GENRUN_GOPATH"), "GOFLAGS=-mod=mod", "GOPROXY=off", "GOSUMDB=off", "GOTOOLCHAIN=local")
@@ -231,6 +242,27 @@ func main() {
 	}
 	if os.Getenv("GENRUN_BUILDLOG") != "" {
 		_ = os.WriteFile(os.Getenv("GENRUN_BUILDLOG"), outb, 0644)
+	}
+	if emitMode {
+		// registry + main of the runner, over the units that compiled
+		var imp, reg strings.Builder
+		for _, u := range units {
+			if u.obs["gen"] != "ok" || failed[u.pkg] {
+				continue
+			}
+			imp.WriteString("\t" + u.pkg + " \"gen/" + u.pkg + "\"\n\t_ \"gen/" + u.pkg + "_ins\"\n")
+			reg.WriteString("\temit.Register(\"" + u.root + "\", reflect.TypeOf(" + u.pkg + "." + u.root + "{}))\n")
+		}
+		mainsrc := "package main\n\nimport (\n\t\"reflect\"\n\n\t\"verif/harness/emit\"\n" + imp.String() + ")\n\nfunc main() {\n" + reg.String() + "\temit.Main()\n}\n"
+		must(os.MkdirAll(filepath.Join(base, "erun"), 0755))
+		must(os.WriteFile(filepath.Join(base, "erun", "main.go"), []byte(mainsrc), 0644))
+		cmd := exec.Command("go", "build", "-o", filepath.Join(root, "erun"), "./erun")
+		cmd.Dir = base
+		cmd.Env = append(os.Environ(), "GO111MODULE=on", "GOMODCACHE="+os.Getenv("GENRUN_MODCACHE"), "GOPATH="+os.Getenv("GENRUN_GOPATH"), "GOFLAGS=-mod=mod", "GOPROXY=off", "GOSUMDB=off", "GOTOOLCHAIN=local")
+		if ob, err := cmd.CombinedOutput(); err != nil {
+			fmt.Fprintln(os.Stderr, "genrun: building erun failed:", string(ob))
+			os.Exit(1)
+		}
 	}
 	out := bufio.NewWriter(os.Stdout)
 	defer out.Flush()
